@@ -1,5 +1,5 @@
 (* Properties/C01.v — Search returns only live items with true scores, sorted, unique, at most k. *)
-From Verif Require Import Base.Prelude Store.Spec Store.Partition Store.Proofs Store.Replicas Hnsw.Model Hnsw.Frame Hnsw.Inv Hnsw.Search Hnsw.Dataset Generated.Facts.
+From Verif Require Import Base.Prelude Store.Spec Store.Partition Store.Proofs Store.Replicas Hnsw.Model Hnsw.Frame Hnsw.Inv Hnsw.Oracle Hnsw.Search Hnsw.Dataset Generated.Facts.
 From Coq Require Import Sorted.
 Open Scope N_scope.
 
@@ -15,6 +15,12 @@ Proof. repeat split; reflexivity. Qed.
 Theorem C01_inv_reachable : forall dist ord c (log : list change) s,
   Inv s -> Inv (fst (p_run (h_ops dist ord c) s log)).
 Proof. intros dist ord c log s I. exact (proj1 (contract_refines (h_ops dist ord c) Inv (h_contract dist ord c) log s _ I (fun _ => eq_refl))). Qed.
+(* … also when every single call iterates its maps in an order of its own (Go map iteration order is unspecified and
+   differs from call to call; Remove's re-linking depends on it): the invariant holds and the contents are the sequential map's *)
+Theorem C01_inv_any_order : forall dist c steps s cont, Inv s -> Permutation (h_items s) cont ->
+  Inv (fold_left (hstep_apply dist c) steps s) /\
+  Permutation (h_items (fold_left (hstep_apply dist c) steps s)) (fold_left spec_step steps cont).
+Proof. exact any_order_run. Qed.
 Theorem C01_inv_initial : Inv hnsw_empty.
 Proof. exact inv_empty. Qed.
 
@@ -46,6 +52,7 @@ Theorem C01_store_contract : forall dist ord c, contract (h_ops dist ord c) Inv.
 Proof. exact h_contract. Qed.
 
 Print Assumptions C01_inv_reachable.
+Print Assumptions C01_inv_any_order.
 Print Assumptions C01_search_sound.
 Print Assumptions C01_dataset_merge.
 Print Assumptions C01_store_contract.
